@@ -296,6 +296,15 @@ func (c *SpecCtx) selectField(base Value, name string) Value {
 				return c.constValue(ob)
 			case *types.TypeName:
 				return &TypeV{ob.Type()}
+			case *types.Var:
+				// package-level variable of another package: a global cell
+				gname := q("G!" + b.P.Path() + "." + name)
+				if !c.e.declared[gname] {
+					c.e.declared[gname] = true
+					c.e.sess.Cmd("(declare-const " + gname + " Int)")
+					c.e.sess.Cmd("(assert (< " + gname + " 0))")
+				}
+				return c.e.load(c.st, &Ptr{Kind: "obj", Ref: gname, Root: ob.Type()})
 			}
 		}
 		specFail("unknown %s.%s", b.P.Name(), name)
